@@ -323,33 +323,33 @@ def Prov.destroy (p : Prov) : Prov × Evs :=
   match p.layer with
   | .multiSpan =>
     -- `~MultiSpanProcessor() { Shutdown(); Cleanup(); }`
-    let (p1, _, e1) := p.shutdown .max
-    let r := dtorAllRev p1.children
-    ({ p1 with children := r.1, alive := false }, e1 ++ r.2.2)
+    let s1 := p.shutdown .max
+    let r := dtorAllRev s1.1.children
+    ({ s1.1 with children := r.1, alive := false }, s1.2.2 ++ r.2.2)
   | .tracerProvider =>
     -- `~TracerProvider() { context_->Shutdown(); }`, then the context goes: `~MultiSpanProcessor`
-    let (p1, _, e1) := p.shutdown .max
-    let (p2, _, e2) := p1.shutdown .max
-    let r := dtorAllRev p2.children
-    ({ p2 with children := r.1, alive := false }, e1 ++ e2 ++ r.2.2)
+    let s1 := p.shutdown .max
+    let s2 := s1.1.shutdown .max
+    let r := dtorAllRev s2.1.children
+    ({ s2.1 with children := r.1, alive := false }, s1.2.2 ++ s2.2.2 ++ r.2.2)
   | .multiLog =>
     -- `~MultiLogRecordProcessor() { ForceFlush(); Shutdown(); }`, then the vector
-    let (p1, _, e1) := p.flush .max
-    let (p2, _, e2) := p1.shutdown .max
-    let r := dtorAll p2.children
-    ({ p2 with children := r.1, alive := false }, e1 ++ e2 ++ r.2.2)
+    let f1 := p.flush .max
+    let s2 := f1.1.shutdown .max
+    let r := dtorAll s2.1.children
+    ({ s2.1 with children := r.1, alive := false }, f1.2.2 ++ s2.2.2 ++ r.2.2)
   | .loggerProvider =>
     -- `~LoggerProvider() { context_->Shutdown(); }`, then the context goes: `~MultiLogRecordProcessor`
-    let (p0, _, e0) := p.shutdown .max
-    let (p1, _, e1) := p0.flush .max
-    let (p2, _, e2) := p1.shutdown .max
-    let r := dtorAll p2.children
-    ({ p2 with children := r.1, alive := false }, e0 ++ e1 ++ e2 ++ r.2.2)
+    let s0 := p.shutdown .max
+    let f1 := s0.1.flush .max
+    let s2 := f1.1.shutdown .max
+    let r := dtorAll s2.1.children
+    ({ s2.1 with children := r.1, alive := false }, s0.2.2 ++ f1.2.2 ++ s2.2.2 ++ r.2.2)
   | .meterProvider =>
     -- `~MeterProvider() { context_->Shutdown(); }`, then the collectors and their readers
-    let (p1, _, e1) := p.shutdown .max
-    let r := dtorAll p1.children
-    ({ p1 with children := r.1, alive := false }, e1 ++ r.2.2)
+    let s1 := p.shutdown .max
+    let r := dtorAll s1.1.children
+    ({ s1.1 with children := r.1, alive := false }, s1.2.2 ++ r.2.2)
 
 /-- apply `f` to child `i` -/
 def onChild (f : Child → Out) : Nat → Nat → List Child → Option (List Child × Bool × Evs)
